@@ -147,7 +147,7 @@ func runC04(c *mon.Ctx) {
 	r := c.Rand("protos")
 	id := gen.NewIdentity(c.RandShared("id"), "a.example", "ed25519:k1")
 	versions := sortedVersions()
-	n := c.Scale(48, 1200)
+	n := c.Scale(48, 8000)
 	for k := 0; k < n; k++ {
 		for _, ver := range versions {
 			t := ref.Traits(string(ver))
